@@ -124,3 +124,11 @@ Theorem C12_erat3_stores_in_bounds : forall stop maxSmall maxMedium log2 pmin, s
   exists s1, add_prime3 stop low maxSmall maxMedium log2 s p = Some s1.
 Proof. exact add_prime3_total. Qed.
 Print Assumptions C12_erat3_stores_in_bounds.
+
+(** SievingPrimes::sieveSegment reads tinySieve_[i] only where the table exists and inside it: for start <= i with
+    i * i <= segmentHigh <= stop the guard start * start <= stop of init() holds and i <= isqrt(stop) = size - 1 *)
+From PS Require Import Model.SievingPrimesM Proofs.SievingPrimesP.
+Theorem C12_tiny_read_in_range : forall start stop high i, start <= i -> i * i <= high -> high <= stop ->
+  tiny_built start stop = true /\ (N.to_nat i < length (tiny_sieve (N.sqrt stop)))%nat.
+Proof. exact tiny_read_in_range. Qed.
+Print Assumptions C12_tiny_read_in_range.
